@@ -60,7 +60,13 @@ def main():
                     NEVER_PATH="%s/sample/lib:%s/sample" % (src, src))
         rc_without, out_without = sh("chmod +x seed/%s/demo/run.sh; ./seed/%s/demo/run.sh" % (sub, sub), cwd=src, env=denv, timeout=600)
         # with the patch
-        rc, out = sh("git apply --whitespace=nowarn %s" % os.path.join(seed, "patch.diff"), cwd=src)
+        pf = os.path.join(seed, "patch.diff")
+        rc, out = sh("git apply --whitespace=nowarn %s" % pf, cwd=src)
+        if rc != 0:
+            # /repo has moved on since the seed was written (fix: commits): accept fuzz
+            rc, out2 = sh("patch -p1 --fuzz=3 --no-backup-if-mismatch < %s" % pf, cwd=src)
+            out += out2
+            meta["applied_with_fuzz"] = rc == 0
         if rc != 0:
             print("patch does not apply:", out)
             meta["applies"] = False
@@ -89,6 +95,7 @@ def main():
         readme = open(os.path.join(seed, "README.md"), errors="replace").read() if os.path.exists(os.path.join(seed, "README.md")) else ""
         m = re.search(r"(?is)(needs?[^\n]*manifest[^\n]*\n(?:.*\n){0,6})", readme)
         meta["demo_subdir"] = sub
+        meta["repo_commit_when_run"] = sh("git -C /repo rev-parse --short HEAD")[1].strip()
         meta["demo_how"] = "from a checkout of never-lang/never with the patch applied and built into _build: place demo/ at seed/%s/demo and run seed/%s/demo/run.sh from the repository root (or set NEVER / NEVER_BIN to the built binary)" % (sub, sub)
         meta["needs_to_manifest"] = (m.group(1).strip()[:800] if m else readme[:800])
         # keep the results of checks run earlier against this seed and not re-run now
